@@ -101,6 +101,14 @@ Proof.
     + cbn [concat]. rewrite blen_app. lia.
 Qed.
 
+Lemma write_chunks_beyond' chunks c t dv abs dv' abs' :
+  chunks = c :: t -> c <> [] -> blen (d_file dv) <= abs ->
+  write_chunks dv abs chunks = (dv', abs', true) ->
+  d_file dv' = d_file dv ++ zerosN (abs - blen (d_file dv)) ++ concat chunks /\
+  abs' = abs + blen (concat chunks) /\
+  nfaults (d_faults dv') = nfaults (d_faults dv).
+Proof. intros ->. apply write_chunks_beyond. Qed.
+
 (* two successful calls overwriting a middle part *)
 Lemma write_chunks_mid2 a b1 b2 c x y dv dv' abs' :
   d_file dv = a ++ (b1 ++ b2) ++ c -> x <> [] -> y <> [] -> blen x = blen b1 -> blen y = blen b2 ->
